@@ -19,7 +19,7 @@ variable {X : List (ScqId × List Nat)} {E : List EC} {I : List IC} {Q : List QC
 @[simp] theorem setSticks_nodes (ts : TState) (q w r) : (ts.setSticks q w r).nodes = ts.nodes := rfl
 
 theorem incOps_nodes (ts : TState) (t : Task) (k : WKey) :
-    (ts.incOps t k).nodes = t.ops.foldl (fun ns o => incExec ns t.scq (ts.invOf o) k ts.s.now) ts.nodes := rfl
+    (ts.incOps t k).nodes = t.ops.foldl (fun ns o => incExecR ts.legacyPrio ts.prioOf ns t.scq (ts.invOf o) k ts.s.now) ts.nodes := rfl
 
 theorem clearLast_nodes (ts : TState) (q : ScqId) (w : WId) (p : List Nat) (h : ts.lastOf q w = some p) :
     (ts.clearLast q w).nodes = clearLastN ts.nodes q p := by
@@ -35,7 +35,7 @@ theorem assignTree_nodes_ok (ts : TState) (w : Worker) (t : Task) (r : Nat)
     (hP : ∀ c ∈ P, (c.1, c.2.1) ∈ I.erase (w.scq, p)) :
     TreeOK [] (ts.assignTree w t r).nodes (t.ops.map (fun o => (t.scq, ts.invOf o, some w.id)) ++ E)
       (I.erase (w.scq, p)) Q P := by
-  have h1 := incOps_ok hT t.scq ts.invOf (some w.id) ts.s.now t.ops hn
+  have h1 := incOps_ok hT ts.legacyPrio ts.prioOf t.scq ts.invOf (some w.id) ts.s.now t.ops hn
   have hX0 : X.filter (fun x => !t.ops.any (fun o => onPathOf t.scq (ts.invOf o) x)) = [] := by
     rw [List.filter_eq_nil_iff]
     intro x hx
